@@ -85,9 +85,7 @@ def encDb (K1 K2 K3 : Bytes) : DB → Nat → List Bytes → Table → Tape → 
   | (w, ids) :: rest, ctr, A, T, t => do
     let (k0, t1) ← takeBytes cfg.k.toNat t
     let (lastKey, ctr1, first, A1, t2) ← innerNodes cfg lv K1 ids k0 ctr none A t1
-    let lastId ← match ids.getLast? with
-      | some x => pure x
-      | none => throw .indexError
+    let lastId ← (match ids.getLast? with | some x => Except.ok x | none => Except.error Err.indexError)
     let lastNode := lastId ++ zeros cfg.k.toNat ++ zeros cfg.log2sBytes
     let lastAddr ← psi cfg lv K1 ctr1
     let (c, t3) ← skeEncrypt cfg.ske1 lv lastKey lastNode t2
@@ -95,9 +93,8 @@ def encDb (K1 K2 K3 : Bytes) : DB → Nat → List Bytes → Table → Tape → 
     let firstAddr := first.getD lastAddr
     let gamma ← piBytes cfg lv K3 w
     let eta ← cfg.prfF.call lv.hmac K2 (addLeadingZeros w cfg.l)
-    let theta ← match bytesXor ((← firstAddr.toBytes) ++ k0) eta with
-      | .ok x => pure x
-      | .error _ => throw .indexError
+    let fb ← firstAddr.toBytes
+    let theta ← bytesXor (fb ++ k0) eta                  -- IndexError when the mask is longer
     encDb K1 K2 K3 rest (ctr1 + 1) A2 (tinsert T gamma theta) t3
 
 def fillA (size : Nat) : List Bytes → Tape → Except Err (List Bytes × Tape)
@@ -153,12 +150,32 @@ def search (edb : SSE1EDB) (tk : Bytes × Bytes) : Except Err (List Bytes) :=
   match edb.T.get tk.1 with
   | none => .ok []
   | some theta => do
-    let x ← match bytesXor theta tk.2 with
-      | .ok x => pure x
-      | .error _ => throw .indexError
+    let x ← bytesXor theta tk.2
     match ← splitBytes x [cfg.log2sBytes, cfg.k.toNat] with
     | [addr, key] => walk cfg lv edb.A (edb.A.length + 1) addr key []
     | _ => throw .valueError
+
+/-! the hypotheses of the SSE-1 theorems as a computation on this run -/
+
+def nodupBy : List Bytes → Bool
+  | [] => true
+  | a :: as => !as.contains a && nodupBy as
+
+def hypsB (key : List Bytes) (db : DB) (t : Tape) (absent : List Bytes) : Bool :=
+  match key with
+  | [_, _, K3, _] =>
+    let tapeBytes := t.filterMap fun d => match d with | .bytes b => some b | _ => none
+    let labels := db.map fun p => piBytes cfg lv K3 p.1
+    decide (2 ≤ cfg.log2s) &&
+    tapeBytes.all (fun b => !(b.length == cfg.k.toNat && allZero b)) &&
+    labels.all (fun l => match l with | .ok g => !tapeBytes.contains g | .error _ => false) &&
+    nodupBy (labels.map fun l => match l with | .ok g => g | .error _ => []) &&
+    db.all (fun p => p.2.length ≤ cfg.s.toNat && p.2.all (fun x => x.length == cfg.idSize.toNat)) &&
+    (match setup cfg lv key db t with
+     | .ok (e, _) => absent.all (fun w => match piBytes cfg lv K3 w with
+        | .ok g => (e.T.get g).isNone | .error _ => false)
+     | .error _ => false)
+  | _ => false
 
 end SSE1
 end SSEPy.Sch
